@@ -23,6 +23,14 @@ structure St where
   arrBad : Option String := none
   arrJudge : Option String := none
   arrN : Nat := 0
+  -- generic protocol state (one of pw / cl / al at a time)
+  pw : PoolW := { cap := 0, enabled := false, pool := [], live := [], released := [], next := 0 }
+  cl : CapPool := { inUse := [], max := 4294967295, freeCount := 0 }
+  gr : Graph := []
+  op : List String := []
+  bad : Option String := none
+  jbad : Option String := none
+  n : Nat := 0
 
 def kvGet (ws : List String) (k : String) : String :=
   (ws.findSome? fun w => match w.splitOn "=" with | [a, b] => if a == k then some b else none | _ => none).getD ""
@@ -58,6 +66,77 @@ def step (s : St) (line : String) : IO St := do
     let corr := match s.arrBad with | some b => s!"DIFF:{b}" | none => if kvGet ws "ops" == kvGet ws "answered" then "ok" else "DIFF:cunit-died"
     let j := match s.arrJudge with | some b => s!"FAIL:array:{b}" | none => "ok"
     IO.println s!"{id} kind=arr corr={corr} judge={j} ops={s.arrN}"
+    return s
+  | "pwcase" :: _ :: ws =>
+    return { s with pw := { cap := natOf (kvGet ws "cap"), enabled := kvGet ws "enabled" == "1", pool := [], live := [], released := [], next := 0 },
+                    bad := none, jbad := none, n := 0 }
+  | "pwop" :: op => return { s with op := op }
+  | "pwreal" :: ws =>
+    if s.op.head? == some "N" then return s else
+    let liveBefore := s.pw.live
+    let (w', obj) := applyPw s.pw s.op
+    let ok := obj == kvGet ws "obj" && toString w'.pool.length == kvGet ws "pool" && toString w'.released.length == kvGet ws "frees"
+    let bad := if ok then s.bad else s.bad <|> some s!"op#{s.n}:{" ".intercalate s.op}:model=(obj {obj},pool {w'.pool.length},frees {w'.released.length}):real=({kvGet ws "obj"},{kvGet ws "pool"},{kvGet ws "frees"})"
+    -- judge on the real answer: cache within its cap; an allocation never returns a live object
+    let realPool := natOf (kvGet ws "pool")
+    let jb := if realPool > s.pw.cap then some s!"op#{s.n}:cache-exceeds-cap:{realPool}"
+      else if s.op == ["A"] && liveBefore.contains (natOf (kvGet ws "obj")) then some s!"op#{s.n}:allocate-returned-live-object:{kvGet ws "obj"}"
+      else if !poolOkB w' then some s!"op#{s.n}:model-invariant"
+      else none
+    return { s with pw := w', bad := bad, jbad := s.jbad <|> jb, n := s.n + 1 }
+  | "pwend" :: id :: ws =>
+    let corr := match s.bad with | some b => s!"DIFF:{b}" | none => if kvGet ws "ops" == kvGet ws "answered" then "ok" else "DIFF:cunit-died"
+    let j := match s.jbad with | some b => s!"FAIL:pool:{b}" | none => "ok"
+    IO.println s!"{id} kind=pw corr={corr} judge={j} ops={s.n}"
+    return s
+  | "clcase" :: _ => return { s with cl := { inUse := [], max := 4294967295, freeCount := 0 }, bad := none, jbad := none, n := 0 }
+  | "clop" :: op => return { s with op := op }
+  | "clreal" :: ws =>
+    let before := s.cl
+    let (p', id) := applyCl s.cl s.op
+    let ok := id == kvGet ws "id" && toString p'.inUse.length == kvGet ws "size" && toString p'.freeCount == kvGet ws "free" &&
+      (if p'.isEmpty then "1" else "0") == kvGet ws "empty"
+    let bad := if ok then s.bad else s.bad <|> some s!"op#{s.n}:{" ".intercalate s.op}:model=(id {id},size {p'.inUse.length},free {p'.freeCount}):real=({kvGet ws "id"},{kvGet ws "size"},{kvGet ws "free"})"
+    let rid := kvGet ws "id"
+    let jb := if s.op == ["A"] && rid != "NONE" && before.inUse.getD (natOf rid) false then some s!"op#{s.n}:acquire-returned-list-in-use:{rid}"
+      else if natOf (kvGet ws "size") > before.max && s.op == ["A"] then some s!"op#{s.n}:pool-exceeds-limit"
+      else if !capOkB p' then some s!"op#{s.n}:model-invariant"
+      else none
+    return { s with cl := p', bad := bad, jbad := s.jbad <|> jb, n := s.n + 1 }
+  | "clend" :: id :: ws =>
+    let corr := match s.bad with | some b => s!"DIFF:{b}" | none => if kvGet ws "ops" == kvGet ws "answered" then "ok" else "DIFF:cunit-died"
+    let j := match s.jbad with | some b => s!"FAIL:capture-pool:{b}" | none => "ok"
+    IO.println s!"{id} kind=cl corr={corr} judge={j} ops={s.n}"
+    return s
+  | "alcase" :: _ => return { s with gr := [], bad := none, jbad := none, n := 0 }
+  | "alop" :: op => return { s with op := op }
+  | "alreal" :: ws =>
+    let g' := applyAl s.gr s.op
+    let real := " ".intercalate ws
+    let ok := showGraph g' == real
+    let bad := if ok then s.bad else s.bad <|> some s!"op#{s.n}:{" ".intercalate s.op}:model=[{showGraph g'}]:real=[{real}]"
+    let tooMany := ws.any fun w => match w.splitOn ":" with
+      | [_, ts] => ts != "" && (ts.splitOn ",").length > MAX_LINK_COUNT
+      | _ => false
+    let jb := if tooMany then some s!"op#{s.n}:link_count-exceeds-MAX_LINK_COUNT" else none
+    return { s with gr := g', bad := bad, jbad := s.jbad <|> jb, n := s.n + 1 }
+  | "alend" :: id :: ws =>
+    let corr := match s.bad with | some b => s!"DIFF:{b}" | none => if kvGet ws "ops" == kvGet ws "answered" then "ok" else "DIFF:cunit-died"
+    let j := match s.jbad with | some b => s!"FAIL:stack-links:{b}" | none => "ok"
+    IO.println s!"{id} kind=al corr={corr} judge={j} ops={s.n}"
+    return s
+  | "essq" :: id :: ws =>
+    let len := natOf (kvGet ws "len")
+    let m := Ess.init (List.replicate len 0)
+    let mc := m.1.copy
+    let corr := if (if m.1.onHeap then "1" else "0") == kvGet ws "heap" && toString m.2 == kvGet ws "allocs" && toString mc.2 == kvGet ws "copyallocs" &&
+        toString (m.1.delete + mc.1.delete) == kvGet ws "frees" then "ok"
+      else s!"DIFF:model=(heap {m.1.onHeap},allocs {m.2},copy {mc.2},frees {m.1.delete + mc.1.delete})"
+    let j := if kvGet ws "rb" != "1" || kvGet ws "copyrb" != "1" then "FAIL:ess:data-not-read-back"
+      else if kvGet ws "eq" != "1" || kvGet ws "neq" != "1" then "FAIL:ess:eq-wrong"
+      else if natOf (kvGet ws "allocs") + natOf (kvGet ws "copyallocs") != natOf (kvGet ws "frees") then "FAIL:ess:allocations-not-balanced"
+      else "ok"
+    IO.println s!"{id} kind=ess corr={corr} judge={j} len={len}"
     return s
   | "inlq" :: id :: rest =>
     let (q, r) := rest.span (· != "|")
